@@ -73,6 +73,8 @@ def entries():
                 pass                      # a 0-d operand: numpy accepts no axis but None
             elif r < 0.6:
                 kw["axis"] = _axis(rng, len(s), allow_none=False)
+                if rng.random() < 0.15:
+                    kw["axis"] = rng.choice([numpy.int64, numpy.int32, numpy.intp])(kw["axis"])    # numpy accepts its own integers
             elif r < 0.75 and axis_tuple and len(s) >= 2:
                 axes = rng.sample(range(len(s)), rng.randint(2, len(s)))      # any order, negative entries too
                 kw["axis"] = tuple(a - len(s) if rng.random() < 0.5 else a for a in axes)
